@@ -36,6 +36,7 @@ type Prog struct {
 	fieldAcc map[*types.Var][]Access
 	lockEng  *lockEngine
 	stateEng *stateEngine
+	serEng   *serialEngine
 
 	NFiles int
 }
